@@ -345,3 +345,82 @@ def contains(n, target):
         if x is target:
             return True
     return False
+
+
+def local_defs(f):
+    """id -> ('param'|'let'|'for'|'arm'|'closure', defining node, pattern) for plain bindings"""
+    out = {}
+    for p in f.get("params", []):
+        for name, i in pat_bindings(p):
+            out[i] = ("param", None, p)
+    for n in walk(f["body"]):
+        k = n.get("k")
+        if k == "let":
+            for name, i in pat_bindings(n["pat"]):
+                out[i] = ("let", n, n["pat"])
+        elif k == "letexpr":
+            for name, i in pat_bindings(n["pat"]):
+                out[i] = ("letexpr", n, n["pat"])
+        elif k == "for":
+            for name, i in pat_bindings(n["pat"]):
+                out[i] = ("for", n, n["pat"])
+        elif k == "match":
+            for arm in n["arms"]:
+                for name, i in pat_bindings(arm["pat"]):
+                    out[i] = ("arm", n, arm["pat"])
+        elif k == "closure":
+            for p in n["params"]:
+                for name, i in pat_bindings(p):
+                    out[i] = ("closure", n, p)
+    return out
+
+
+def simple_let_init(defs, i):
+    """init expression of `let x = init` when x is a plain (non-destructuring) binding"""
+    d = defs.get(i)
+    if d and d[0] == "let" and d[2].get("k") == "pbind" and "init" in d[1]:
+        return d[1]["init"]
+    return None
+
+
+def strip_try(n):
+    """look through `?`, refs, derefs and trivial blocks"""
+    while True:
+        n = peel(n)
+        if n.get("k") == "try":
+            n = n["e"]
+        else:
+            return n
+
+
+def chain(n):
+    """flatten a method chain a.m1(..).m2(..) into (base, [(name, args, node), ...])"""
+    ms = []
+    n = strip_try(n)
+    while n.get("k") == "mcall":
+        ms.append((n["name"], n["args"], n))
+        n = strip_try(n["recv"])
+    ms.reverse()
+    return n, ms
+
+
+def is_local(n, i=None):
+    n = peel(n)
+    return n.get("k") == "local" and (i is None or n["id"] == i)
+
+
+def local_id(n):
+    n = peel(n)
+    return n["id"] if n.get("k") == "local" else None
+
+
+def field_path(n):
+    """a.b.c -> ('a', id, ['b','c']) for field accesses rooted at a local"""
+    fs = []
+    n = peel(n)
+    while n.get("k") == "field":
+        fs.append(n["name"])
+        n = peel(n["e"])
+    if n.get("k") == "local":
+        return (n["name"], n["id"], list(reversed(fs)))
+    return None
